@@ -71,6 +71,10 @@ func NewScanner(proto string, opts ...ScannerOption) *Scanner {
 	s := &Scanner{
 		client: &http.Client{
 			Transport: tr,
+			// the probed endpoint itself has to answer, never follow it to another host
+			CheckRedirect: func(*http.Request, []*http.Request) error {
+				return http.ErrUseLastResponse
+			},
 		},
 		proto:       proto,
 		dataTimeout: defaultDataTimeout,
